@@ -322,8 +322,21 @@ def _derive_seed(seed, pid, idx):
     return (h64(f"{seed}/{pid}/{idx}") & 0x7FFFFFFF) or 1
 
 
+def _limit_memory():
+    """a case that makes the tested code allocate without bound must end as a MemoryError in that case, not as an OOM kill of the run"""
+    try:
+        import resource
+        soft, hard = resource.getrlimit(resource.RLIMIT_AS)
+        cap = int(os.environ.get("VERIF_MEM_GB", "6")) << 30
+        if soft == resource.RLIM_INFINITY or soft > cap:
+            resource.setrlimit(resource.RLIMIT_AS, (cap, hard))
+    except Exception:
+        pass
+
+
 def _worker(args):
     modname, pid, tier, seed, idx, job = args
+    _limit_memory()
     try:
         setup_imports()
         from . import findings
